@@ -11,9 +11,10 @@ import PtaProofs.Lemmas.LayerConsistent
 namespace Pta
 open PtaSpec
 
-/-- related listed modules coincide and sit in layers of the same name -/
+/-- related listed modules sit in layers of the same name (inside one layer a module and its sub module, or the same
+    module twice, may be listed) -/
 def UnrelMap (m : Layers) : Prop :=
-  ∀ l₁ ∈ m, ∀ l₂ ∈ m, ∀ x ∈ l₁.2, ∀ y ∈ l₂.2, related x y = true → x = y ∧ l₁.1 = l₂.1
+  ∀ l₁ ∈ m, ∀ l₂ ∈ m, ∀ x ∈ l₁.2, ∀ y ∈ l₂.2, related x y = true → l₁.1 = l₂.1
 
 theorem related_of_prefixes {x y n : Name} (hx : x <+: n) (hy : y <+: n) : related x y = true := by
   unfold related
@@ -51,7 +52,7 @@ theorem layerTag_of_mem {m : Layers} (hU : UnrelMap m) {n : Name} {l : List Char
     obtain ⟨x, hx, hxn⟩ := (inLayer_iff _ _).1 hin
     obtain ⟨y, hy, hyn⟩ := (inLayer_iff _ _).1 hin'
     have := hU l' hl' l hl y hy x hx (related_of_prefixes hyn hxn)
-    simp only [Option.map_some, this.2]
+    simp only [Option.map_some, this]
 
 theorem layerTag_none {m : Layers} {n : Name} (h : layerTag m n = none) :
     ∀ l ∈ m, inLayer l.2 n = false := by
@@ -173,7 +174,7 @@ theorem consistent_of_unrelMap (m : Layers) (hU : UnrelMap m) (hm : ∀ l ∈ m,
   have e : y = x := render_injective y x (hm k2 hk2 y hy) (hm k1 hk1 x hx) hxy
   subst e
   have hrel : related y y = true := by simp [related, desc]
-  exact (hU k1 hk1 k2 hk2 y hx y hy hrel).2
+  exact hU k1 hk1 k2 hk2 y hx y hy hrel
 
 /-! ### from the Bool-valued domain predicate to `UnrelMap` -/
 
@@ -213,10 +214,46 @@ theorem unrelMap_of_pairwise (m : Layers) (h : pairwiseUnrelated (m.flatMap (·.
       (∀ x ∈ a.2, ∀ y ∈ b.2, related x y = false) → (∀ x ∈ b.2, ∀ y ∈ a.2, related x y = false) :=
     fun a b hab x hx y hy => by rw [related_symm]; exact hab y hy x hx
   rcases pairwise_sym_mem hsym hout l₁ h₁ l₂ h₂ with rfl | hne
-  · refine ⟨?_, rfl⟩
-    rcases pairwise_sym_mem (fun a b hab => by rw [related_symm]; exact hab) (hin l₁ h₁) x hx y hy with rfl | hr
-    · rfl
-    · rw [hr] at hrel; cases hrel
+  · rfl
   · rw [hne x hx y hy] at hrel; cases hrel
+
+/-- cross-layer unrelatedness as a `Pairwise` statement -/
+theorem pairwise_of_crossUnrelated (m : Layers) (h : crossUnrelated m = true) :
+    m.Pairwise fun l₁ l₂ => ∀ x ∈ l₁.2, ∀ y ∈ l₂.2, related x y = false := by
+  induction m with
+  | nil => exact List.Pairwise.nil
+  | cons l ls ih =>
+    simp only [crossUnrelated, Bool.and_eq_true, List.all_eq_true, Bool.not_eq_true'] at h
+    exact List.Pairwise.cons (fun l' hl' x hx y hy => h.1 x hx l' hl' y hy) (ih h.2)
+
+theorem unrelMap_of_cross (m : Layers) (h : crossUnrelated m = true) : UnrelMap m := by
+  have hout := pairwise_of_crossUnrelated m h
+  intro l₁ h₁ l₂ h₂ x hx y hy hrel
+  have hsym : ∀ a b : List Char × List Name,
+      (∀ x ∈ a.2, ∀ y ∈ b.2, related x y = false) → (∀ x ∈ b.2, ∀ y ∈ a.2, related x y = false) :=
+    fun a b hab x hx y hy => by rw [related_symm]; exact hab y hy x hx
+  rcases pairwise_sym_mem hsym hout l₁ h₁ l₂ h₂ with rfl | hne
+  · rfl
+  · rw [hne x hx y hy] at hrel; cases hrel
+
+/-- the old (all listed modules pairwise unrelated) implies the relaxed (cross-layer) condition -/
+theorem cross_of_pairwiseUnrelated (m : Layers) (h : pairwiseUnrelated (m.flatMap (·.2)) = true) :
+    crossUnrelated m = true := by
+  induction m with
+  | nil => rfl
+  | cons l ls ih =>
+    have hp := pairwise_of_pairwiseUnrelated _ h
+    rw [List.flatMap_cons, List.pairwise_append] at hp
+    obtain ⟨_, h2, h3⟩ := hp
+    simp only [crossUnrelated, Bool.and_eq_true, List.all_eq_true, Bool.not_eq_true']
+    refine ⟨fun x hx l' hl' y hy => h3 x hx y (List.mem_flatMap.2 ⟨l', hl', hy⟩), ih ?_⟩
+    clear ih h3 h
+    generalize ls.flatMap (·.2) = L at h2
+    induction L with
+    | nil => rfl
+    | cons z zs ih2 =>
+      rw [List.pairwise_cons] at h2
+      simp only [pairwiseUnrelated, Bool.and_eq_true, List.all_eq_true, Bool.not_eq_true']
+      exact ⟨h2.1, ih2 h2.2⟩
 
 end Pta
